@@ -78,6 +78,57 @@ pub fn judge_un(op: usize, a: i128, out: &mut Local) -> Option<Duration> {
     }
 }
 
+// (* and / are left to c01.mul_i64 / div_i64, which carry the defect model of the known finding D1)
+const RAW_OPS: [&str; 12] = ["id", "neg", "abs", "add_zero", "sub_1ns", "add_1ns", "sub_century", "add_neg_century", "add_assign_zero", "neg_neg", "zero_sub", "sub_assign_1ns"];
+/// an operand handed to the constructor in a raw form (any i16 century count with any u64 nanosecond part, the
+/// statement's quantifier), then one operation; the model value of the operand is clamp(c * NPC + n)
+pub fn judge_raw(op: usize, c: i16, n: u64, out: &mut Local) {
+    let v = clamp(c as i128 * NPC + n as i128);
+    let one = mk(1);
+    let cent = mk(NPC);
+    let want = clamp(match op {
+        0 | 3 | 8 | 9 => v,
+        1 | 10 => -v,
+        2 => v.abs(),
+        4 | 11 => v - 1,
+        5 => v + 1,
+        _ => v - NPC,
+    });
+    let got = guard(|| {
+        let x = Duration::from_parts(c, n);
+        match op {
+            0 => x,
+            1 => -x,
+            2 => x.abs(),
+            3 => x + Duration::ZERO,
+            4 => x - one,
+            5 => x + one,
+            6 => x - cent,
+            7 => x + (-cent),
+            8 => {
+                let mut y = x;
+                y += Duration::ZERO;
+                y
+            }
+            9 => -(-x),
+            10 => Duration::ZERO - x,
+            _ => {
+                let mut y = x;
+                y -= one;
+                y
+            }
+        }
+    });
+    let nt = n as i128 >= NPC;
+    match &got {
+        Ok(d) if canonical(*d) && alpha(*d) == want => out.ok(1, nt, op as u64 | ((want == DMAX) as u64) << 4 | ((want == DMIN) as u64) << 5 | (nt as u64) << 6),
+        _ => {
+            let (cls, obs) = wrong_dur(&got, want);
+            out.viol("c01.raw_operand", format!("{},{cls},centuries-in-ns-field={}", RAW_OPS[op], (n as i128 / NPC).min(2)), vec![op.to_string(), c.to_string(), n.to_string()], describe(want), obs);
+        }
+    }
+}
+
 const SCALE_OPS: [&str; 3] = ["mul_i64", "i64_mul", "div_i64"];
 pub fn judge_scale(op: usize, a: i128, k: i64, out: &mut Local) -> Option<Duration> {
     if op == 2 && k == 0 {
@@ -310,6 +361,23 @@ pub fn run(rep: &mut Report) {
         });
     }
     sweep(rep, "c01.unit_op_unit", 2 * 81, |i, out| judge_unit_unit((i / 81) as usize, UNITS[((i / 9) % 9) as usize], UNITS[(i % 9) as usize], out));
+    // operands in the raw forms the constructor accepts: every century anchor x a nanosecond part of 0..5 whole centuries (and
+    // the top of the u64 range) +- a few offsets, then one operation
+    {
+        let mut raw_n: Vec<u64> = vec![];
+        for k in 0..=5u64 {
+            for o in [-3i64, -2, -1, 0, 1, 2, 3, 1_000_000_000, -1_000_000_000, (NPC / 2) as i64] {
+                raw_n.push((k * NPC as u64).wrapping_add(o as u64));
+            }
+        }
+        raw_n.extend([u64::MAX - 1, u64::MAX, 1 << 63, (1 << 63) - 1]);
+        raw_n.sort();
+        raw_n.dedup();
+        let raw_c: Vec<i16> = lattice::CENTURY_ANCHORS.iter().filter(|c| **c >= -32768 && **c <= 32767).map(|c| *c as i16).collect();
+        let (nn, nc) = (raw_n.len() as u64, raw_c.len() as u64);
+        rep.bound("raw_operands", nn * nc);
+        sweep(rep, "c01.raw_operand", 12 * nn * nc, |i, out| judge_raw((i % 12) as usize, raw_c[((i / 12) / nn) as usize], raw_n[((i / 12) % nn) as usize], out));
+    }
     let depth = if deep { 5 } else { 4 };
     rep.bound("seq_depth", depth as u64);
     let spec = Seq { acts: seq_alphabet(), inits: vec![0, DMIN, DMAX, -1, -NPC, -2 * NPC + NPC - 1], depth };
@@ -342,6 +410,8 @@ pub fn replay(check: &str, a: &[String], out: &mut Local) -> bool {
         judge_unit(op, p128(&a[0]), unit_from(&a[1]), out);
     } else if name == "unit_add_unit" || name == "unit_sub_unit" {
         judge_unit_unit((name == "unit_sub_unit") as usize, unit_from(&a[0]), unit_from(&a[1]), out);
+    } else if name == "raw_operand" {
+        judge_raw(a[0].parse().unwrap(), a[1].parse().unwrap(), a[2].parse().unwrap(), out);
     } else {
         return false;
     }
